@@ -133,6 +133,7 @@ def run_stage(mutate=None, save=True, inject=None, prefixes=("C",)):
             if inject == "update_raises" and bool(SB(sym.FreshBool("update_fault"))):
                 raise Injected("update")
             if inject == "update_interrupt" and bool(SB(sym.FreshBool("update_interrupt"))):
+                G["interrupted"] = True
                 raise KeyboardInterrupt()
             new_dt = SR(DTS(i_.e))
             running_state.append("dt", new_dt)
@@ -197,8 +198,10 @@ def run_stage(mutate=None, save=True, inject=None, prefixes=("C",)):
             return
         i = spec.idx
         c.ax.extend(unfold(i))
-        if inject == "update_interrupt" and ok is False:
+        if G.get("interrupted"):
+            # a cancellation ends the stage and is reported (False), so that later stages are not run
             check("C15.stage_exceptional.cancel_reports_not_completed", z3.BoolVal(ok is False))
+        if inject == "update_interrupt" and ok is False:
             # the interrupted update did not complete: state, time and label are those of step i
             last = frames[-1] if frames else None
             if save:
